@@ -8,7 +8,7 @@ use crate::{
     eng::{action_name, Engine, F, R},
     gen::{cfg_strategy, chacha, ctx_strategy, lattice, mask_of, triple_strategy, Cfg, Triple, TripleSpec, PCLASS},
     mutate::{pick, PubStatement},
-    props::c02::{garbage_oracle, verdicts, GarbageSpec, Shape},
+    props::c02::{garbage_oracle, GarbageSpec, Shape},
     refimpl::{ref_prove, Cheat, RefWitness},
     runner::{guarded, sub, CaseLog, PropertyDef, RunCtx, Sub, Tier},
 };
@@ -195,14 +195,10 @@ pub fn boundary_oracle<E: Engine>(_ctx: &RunCtx, spec: &BoundarySpec, log: &mut 
                 0,
             );
             let st = ps.statement(None)?;
-            let (lib_ok, holds, _) = verdicts::<E>(&ps, &st, &pf.encode(), None)?;
-            if lib_ok {
-                return Err(format!(
-                    "verifier ACCEPTED a reference-prover proof for value {} under promise {} (relation holds: {})",
-                    v,
-                    v + 1,
-                    holds
-                ));
+            if let Ok(lp) = guarded(|| tari_bulletproofs_plus::range_proof::RangeProof::<E::P>::from_bytes(&pf.encode()))? {
+                if guarded(|| E::verify(&mut [ps.ctx.transcript()], &[st.clone()], &[lp], VerifyAction::VerifyOnly))?.is_ok() {
+                    return Err(format!("verifier ACCEPTED a reference-prover proof for value {} under promise {}", v, v + 1));
+                }
             }
         }
     }
